@@ -91,6 +91,9 @@ class Ctx:
         self._solver.set("timeout", self.feas_timeout_ms)
         self.cur_line: Optional[int] = None
         self.prefix = ""
+        # ghost functions of the axiomatised primitives executed on this path, in call order
+        # (contracts use them to name witnesses)
+        self.ghosts = {}
         self._obl_names = {}
         self.deadline = None
 
@@ -122,12 +125,20 @@ class Ctx:
             return
         if goal is False:
             goal = z3.BoolVal(False)
+        if z3.is_and(goal) and goal.num_args() > 1:
+            # one obligation per conjunct: smaller queries, more stable verdicts
+            for i, c in enumerate(goal.children()):
+                self.oblige(c, f"{label}.{i}", kind, note, assume_after)
+            return
         name = self._unique(f"{self.prefix}#{kind}:{label}")
         self.obligations.append(
             Obligation(name, kind, len(self.assumptions), goal, self.cur_line, note)
         )
         if assume_after:
             self.assume(goal)
+
+    def log_ghost(self, kind, value):
+        self.ghosts.setdefault(kind, []).append(value)
 
     def cover(self, label):
         """Vacuity guard: the current path condition must be satisfiable."""
